@@ -183,7 +183,8 @@ func selectAddrFromSubnetOffset(net1 *phantomNet, offset *big.Int) (*PhantomIP, 
 	}
 
 	ipBigInt.Add(ipBigInt, offset)
-	ip := net.IP(ipBigInt.Bytes())
+	// big.Int.Bytes drops leading zero bytes; the address must keep its full length
+	ip := net.IP(ipBigInt.FillBytes(make([]byte, addrLen/8)))
 
 	return &PhantomIP{ip: &ip, supportRandomPort: net1.supportRandomPort}, nil
 }
